@@ -277,9 +277,16 @@ End Spec.
 
 (* the specification applied to a transformer built by the model's try_new: same
    literals, ellipsis and (pattern, template) pairs *)
+Definition rule_wf (literals : list cell) (ellipsis : cell) (r : pattern * cell) : bool :=
+  match p_expr (fst r) with
+  | CPair _ pd => no_dup (pvars literals ellipsis pd)      (* no pattern variable twice *)
+  | _ => false
+  end.
+
 Definition spec_of_transform (tr : transform) (form : cell) : spec_out :=
   match form with
   | CPair _ _ =>
+      if negb (forallb (rule_wf (tr_literals tr) (tr_ellipsis tr)) (tr_rules tr)) then SpecInvalid else
       spec_rules (tr_literals tr) (tr_ellipsis tr)
                  (map (fun r => (p_expr (fst r), snd r)) (tr_rules tr)) form
   | _ => SpecNoMatch
